@@ -147,11 +147,11 @@ def step (k : CSpec) (m : CMon) : Ev → Except String CMon
                    inbuf := if k.lowers then m.inbuf ++ ids else m.inbuf,
                    got := if k.lowers || m.dropping then m.got else m.got ++ ids }
   -- what the host tells the guest
-  | .ch .swrite [h, n, code] =>
+  | .ch .swrite [h, n, code, _] =>
     if h ≠ m.handle || m.handle = 0 then .ok m else
     if n ≠ m.win.length + m.sinceTold then .error "fifo-window-size" else
     .ok { (told m code) with slab := m.slab }
-  | .ch .sread [h, n, code] =>
+  | .ch .sread [h, n, code, _] =>
     if h ≠ m.handle || m.handle = 0 then .ok m else .ok { (told m code) with slab := m.slab || (k.lowers && n != 0) }
   | .ch .fwrite [h, code] => if h ≠ m.handle || m.handle = 0 then .ok m else .ok (told m code)
   | .ch .fread [h, code] => if h ≠ m.handle || m.handle = 0 then .ok m else .ok { (told m code) with slab := true }
@@ -238,6 +238,52 @@ def handles (evs : List Ev) : List Nat :=
     | .ch .given [_, h] => some h
     | _ => none).eraseDups
 
+/-! ## Where the guest's pointer points (C19)
+
+The pointer a `stream.write` hands to the host must point at the first value the host has not taken yet: `elements
+the host took out of the current buffer × element size` bytes from the base of the buffer's storage (the host
+reads `n` elements from there; a pointer elsewhere makes the reader see shifted or repeated data even when every
+count is right).  For a `stream.read` into a canonical vector it is the end of the values already received
+(`values received into the current vector × element size`), for a lowered payload the base of a fresh slab.
+The mock host reports the byte offset of the pointer within the live heap block it lies in (4th number of
+`swrite` / `sread`). -/
+
+structure PMon where
+  handle : Nat := 0
+  awaitNew : Bool := false
+  moved : Nat := 0          -- elements the host moved out of the current write buffer / into the current vector
+  sinceTold : Nat := 0      -- … of which since the host last told the guest a code (a rendezvous moves the
+                            -- elements before the built-in's own token appears in the trace)
+deriving DecidableEq, Repr
+
+def ptrStep (k : CSpec) (esize : Nat) (m : PMon) : Ev → Except String PMon
+  | .ch .opn [c] => if c = k.c then .ok { m with awaitNew := true } else .ok m
+  | .ch .snew [w, _] | .ch .fnew [w, _] => if m.awaitNew then .ok { m with awaitNew := false, handle := w } else .ok m
+  | .ch .given [c, h] => if c = k.c then .ok { m with awaitNew := false, handle := h } else .ok m
+  -- a new buffer / a new vector
+  | .ch .iw [c, _, _] | .ch .iwa [c, _, _] | .ch .iwo [c, _] | .ch .ir [c, _] | .ch .inx [c] | .ch .ico [c] =>
+    if c = k.c then .ok { m with moved := 0, sinceTold := 0 } else .ok m
+  | .ch .xf (c :: ids) | .ch .xfr (c :: ids) =>
+    if c = k.c then .ok { m with moved := m.moved + ids.length, sinceTold := m.sinceTold + ids.length } else .ok m
+  | .ch .swrite [h, _, _, off] =>
+    if h ≠ m.handle || m.handle = 0 then .ok m else
+    if off ≠ (m.moved - m.sinceTold) * esize then .error "fifo-pointer-not-at-cursor" else .ok { m with sinceTold := 0 }
+  | .ch .sread [h, _, _, off] =>
+    if h ≠ m.handle || m.handle = 0 then .ok m else
+    if off ≠ (if k.lowers then 0 else (m.moved - m.sinceTold) * esize) then .error "fifo-pointer-not-at-vector-end"
+    else .ok { m with sinceTold := 0 }
+  | .ch .scw [h, _] | .ch .scr [h, _] | .dlv h _ =>
+    if h ≠ m.handle || m.handle = 0 then .ok m else .ok { m with sinceTold := 0 }
+  | .evCb e h _ | .setPoll _ e h _ | .setWait _ e h _ =>
+    if e = Host.EVENT_NONE || e = Host.EVENT_CANCEL || h ≠ m.handle || m.handle = 0 then .ok m else .ok { m with sinceTold := 0 }
+  | _ => .ok m
+
+def ptrRun (k : CSpec) (esize : Nat) (m : PMon) : List Ev → Except String PMon
+  | [] => .ok m
+  | e :: es => match ptrStep k esize m e with
+    | .ok m' => ptrRun k esize m' es
+    | .error c => .error c
+
 /-! ## Legality of the host's recorded answers (`Host.End` rules) on a real trace -/
 
 structure FEnd where
@@ -278,7 +324,7 @@ def followStep (f : Follow) : Ev → Follow
     | some c => { f with opening := none, ends := f.ends ++ [⟨c, w, { fut := (f.decls c).1, writer := true }, none, false⟩] }
     | none => f.flag "new-without-open"
   | .ch .given [c, h] => { f with opening := none, ends := f.ends ++ [⟨c, h, { fut := (f.decls c).1, writer := false }, none, false⟩] }
-  | .ch .swrite [h, n, code] | .ch .sread [h, n, code] => followCopy f h n code
+  | .ch .swrite [h, n, code, _] | .ch .sread [h, n, code, _] => followCopy f h n code
   | .ch .fwrite [h, code] | .ch .fread [h, code] => followCopy f h 1 code
   | .ch .xf (c :: ids) =>
     match f.ends.find? (fun x => x.c == c && !x.gone) with
